@@ -31,6 +31,10 @@ pub struct ReproCase
     pub tamper: bool,
     pub prefix: Vec<Op>,
     pub sched_seed: u16,
+    /// an unrelated rule (neither ancestor nor descendant of the contradicting one) whose command is edited before the
+    /// contradicting build, so that it has to run in that same build
+    #[serde(default)]
+    pub other: Option<u16>,
 }
 
 const UNDECL: &str = "undeclared.in";
@@ -53,6 +57,26 @@ fn descendants(w: &World, ri: usize) -> BTreeSet<usize>
             if out.insert(d)
             {
                 stack.push(d);
+            }
+        }
+    }
+    out
+}
+
+fn ancestors(w: &World, ri: usize) -> BTreeSet<usize>
+{
+    let mut out = BTreeSet::new();
+    let mut stack = vec![ri];
+    while let Some(r) = stack.pop()
+    {
+        for s in w.model.rules[r].sources.iter()
+        {
+            if let Some(p) = w.model.producer_of(s)
+            {
+                if out.insert(p)
+                {
+                    stack.push(p);
+                }
             }
         }
     }
@@ -134,9 +158,55 @@ pub fn test_case(c: &ReproCase, stats: &mut Stats) -> Result<(), String>
     w.model.files.insert(UNDECL.to_string(), b"two".to_vec());
     let ft = rule.targets[gen::pick(c.force_target, rule.targets.len())].clone();
     force(&mut w, &ft, &recorded[&ft], c.tamper);
+    // an unrelated rule gets a new command (a new identity) so that it has work to do in the same build
+    let mut other_rule: Option<usize> = None;
+    if let Some(pick) = c.other
+    {
+        let anc = ancestors(&w, ri);
+        let desc0 = descendants(&w, ri);
+        let eligible: Vec<usize> = (0..w.model.rules.len()).filter(|i| *i != ri && !anc.contains(i) && !desc0.contains(i)).collect();
+        if !eligible.is_empty()
+        {
+            let j = eligible[gen::pick(pick, eligible.len())];
+            let n = w.model.rules.len();
+            let x = ((j * 65536 + n - 1) / n).min(65535) as u16;
+            if gen::pick(x, n) == j
+            {
+                if let Applied::UserAction(_) = w.apply(&Op::Retag { rule: x })
+                {
+                    other_rule = Some(j);
+                }
+            }
+        }
+    }
     let b2 = w.invoke(Inv::Build(None), &sched, None);
     if let Some(m) = history::describe_abnormal(&b2) { return Err(m); }
     let ran = b2.executed_rules(&w.model);
+    // did the unrelated rule run and succeed in this build?
+    let other_built = match other_rule
+    {
+        Some(j) => ran.contains(&j) && b2.reference.outcome[j] == ROut::Ok
+            && w.model.rules[j].targets.iter().all(|t| b2.post.get(t).map(|f| &f.data) == b2.reference.files.get(t).map(|x| &x.0)),
+        None => false,
+    };
+    if let Some(j) = other_rule
+    {
+        if !ran.contains(&j)
+        {
+            return Err(format!("the command of the unrelated rule {:?} was edited, but it did not run in the build in which rule {:?} contradicts its history", w.model.rules[j].targets, rule.targets));
+        }
+        if b2.reference.outcome[j] == ROut::Ok && !other_built
+        {
+            return Err(format!("the unrelated rule {:?} ran in the contradicting build but its targets do not hold what its command produces", w.model.rules[j].targets));
+        }
+    }
+    if !ran.contains(&ri) && other_rule.is_some()
+    {
+        // the edited unrelated rule displaced a byte-identical file into the cache just before: ruler rightly took that
+        // back instead of running the command.  Nothing to assert in this scenario.
+        stats.class("force-defeated-by-unrelated-rule");
+        return Ok(());
+    }
     if !ran.contains(&ri)
     {
         return Err(format!("harness: re-execution of rule {:?} was not forced (nothing asserted)", rule.targets));
@@ -190,7 +260,8 @@ pub fn test_case(c: &ReproCase, stats: &mut Stats) -> Result<(), String>
             }
             for t in r.targets.iter()
             {
-                if b2.post.get(t).map(|f| &f.data) != others_before.get(t).map(|f| &f.data)
+                let expected_change = other_rule.map(|j| j == i || descendants(&w, j).contains(&i)).unwrap_or(false);
+                if !expected_change && b2.post.get(t).map(|f| &f.data) != others_before.get(t).map(|f| &f.data)
                 {
                     return Err(format!("target {} of an unrelated rule changed during the contradicting build", t));
                 }
@@ -228,6 +299,17 @@ pub fn test_case(c: &ReproCase, stats: &mut Stats) -> Result<(), String>
         if read_history(&w, &rule)? != hist_before
         {
             return Err(format!("the history of rule {:?} changed when the contradicting build was repeated", rule.targets));
+        }
+        // builds of other rules are unaffected: what the unrelated rule built next to the contradiction is remembered
+        if let (Some(j), true) = (other_rule, other_built)
+        {
+            if b2b.executed_rules(&w.model).contains(&j)
+            {
+                return Err(format!(
+                    "the unrelated rule {:?} was built successfully in the same build in which rule {:?} contradicted its history; with nothing changed its command ran again in the next build",
+                    w.model.rules[j].targets, rule.targets));
+            }
+            stats.class("unrelated-rule-built-alongside");
         }
         stats.class("contradiction-repeated");
     }
@@ -271,7 +353,8 @@ pub fn strategy(max_rules: usize) -> impl Strategy<Value = ReproCase>
     (
         gen::graph_spec(max_rules, false).prop_map(|mut g| { for r in g.rules.iter_mut() { if r.n_targets < 2 && r.srcs.len() % 2 == 0 { r.n_targets = 2; } } g }),
         any::<u16>(), 0u8..8, any::<u16>(), any::<bool>(), gen::ops(mix, 5), prop_oneof![1 => Just(0u16), 1 => any::<u16>()],
-    ).prop_map(|(graph, rule, affected_mask, force_target, tamper, prefix, sched_seed)| ReproCase { graph, rule, affected_mask, force_target, tamper, prefix, sched_seed })
+        prop_oneof![1 => Just(None), 2 => any::<u16>().prop_map(Some)],
+    ).prop_map(|(graph, rule, affected_mask, force_target, tamper, prefix, sched_seed, other)| ReproCase { graph, rule, affected_mask, force_target, tamper, prefix, sched_seed, other })
 }
 
 pub fn run(ctx: &Ctx) -> Report
